@@ -349,6 +349,21 @@ fn gen_c03(tier: &Tier, rng: &mut Rng, _w: usize, nw: usize, out: &mut Vec<Case>
             );
         }
     }
+    // checksum sent in its short one-byte form, alone and followed by further messages
+    for _ in 0..(if tier.thorough { 4000 } else { 400 }) / nw {
+        let (x1, m1) = short_crc_message(rng);
+        let mut f = GFile { msgs: vec![m1] };
+        let mut x = x1;
+        if rng.chance(1, 2) {
+            let (x2, m2) = if rng.chance(1, 2) { short_crc_message(rng) } else { let m2 = gmsg(rng, 2); (encode_file(rng, &GFile { msgs: vec![m2.clone()] }, true), m2) };
+            x.extend(x2);
+            f.msgs.push(m2);
+        }
+        out.push(
+            Case::new("valid-short-crc", vec![format!("parse {}", tok(&x)), format!("stream {} 2", tok(&x))])
+                .with_aux(vec![show_gfile(&f), show_gevents(&f).join(" ")]),
+        );
+    }
     // list lengths 41..1100 (thresholds that arise from struct sizes / allocation caps)
     for (k, cnt) in (41usize..=1100).step_by(7).chain([743usize, 744, 745, 1489].into_iter()).enumerate() {
         if k % nw == _w {
@@ -387,6 +402,14 @@ fn gen_c03(tier: &Tier, rng: &mut Rng, _w: usize, nw: usize, out: &mut Vec<Case>
 }
 
 fn mutant(rng: &mut Rng, reals: &[Vec<u8>]) -> Vec<u8> {
+    if rng.chance(1, 40) {
+        // a message with a one-byte checksum field followed by a few stray bytes
+        let (mut x, _) = short_crc_message(rng);
+        for _ in 0..rng.below(4) {
+            x.push(*rng.pick(&[0x00u8, 0x01, 0x76, 0x62, 0xff]));
+        }
+        return x;
+    }
     if !reals.is_empty() && rng.chance(1, 5) {
         // mutate a real meter payload (checksums not fixed up: almost always an error)
         let mut x = rng.pick(reals).clone();
